@@ -9,6 +9,8 @@ use simfony::types::{ResolvedType, TypeConstructible, TypeDeconstructible, UIntT
 use simfony::value::{UIntValue, Value, ValueConstructible};
 
 const LIMIT: usize = 4096;
+/// one item per (width, bit): 1 + 2 + 4 + ... + 256
+pub const INT_ITEMS: usize = 511;
 
 /// Number of inhabitants, saturating at LIMIT + 1.
 fn domain(ty: &ResolvedType) -> usize {
@@ -278,6 +280,90 @@ pub fn item(i: usize, seed: u64, small: &[ResolvedType], stats: &mut SweepStats)
             let v = simcore::valgen::gen_value(&mut rng, ty);
             stats.values += 1;
             roundtrip(ty, &v)?;
+        }
+        return Ok(());
+    }
+    let j = j - 65 * 16;
+    if j < INT_ITEMS {
+        // systematic integers: for every width and every bit k: 2^k, 2^k - 1, 2^k + 1, !(2^k),
+        // bare and nested
+        let widths = [1u32, 2, 4, 8, 16, 32, 64, 128, 256];
+        let mut rest = j as u32;
+        let mut w = 1u32;
+        for x in widths {
+            if rest < x {
+                w = x;
+                break;
+            }
+            rest -= x;
+        }
+        let k = rest;
+        let ut = match w {
+            1 => UIntType::U1,
+            2 => UIntType::U2,
+            4 => UIntType::U4,
+            8 => UIntType::U8,
+            16 => UIntType::U16,
+            32 => UIntType::U32,
+            64 => UIntType::U64,
+            128 => UIntType::U128,
+            _ => UIntType::U256,
+        };
+        let ty = ResolvedType::from(ut);
+        stats.types += 1;
+        type_roundtrip(&ty)?;
+        let nbytes = ((w + 7) / 8) as usize;
+        let mk = |f: &dyn Fn(&mut [u8; 32])| -> Value {
+            let mut b = [0u8; 32];
+            f(&mut b);
+            for x in b[..32 - nbytes].iter_mut() {
+                *x = 0;
+            }
+            if w < 8 {
+                b[31] &= (1u8 << w) - 1;
+            }
+            let be = |n: usize| -> u128 { b[32 - n..].iter().fold(0u128, |a, x| (a << 8) | *x as u128) };
+            Value::from(match ut {
+                UIntType::U1 => UIntValue::u1(b[31]).unwrap(),
+                UIntType::U2 => UIntValue::u2(b[31]).unwrap(),
+                UIntType::U4 => UIntValue::u4(b[31]).unwrap(),
+                UIntType::U8 => UIntValue::U8(b[31]),
+                UIntType::U16 => UIntValue::U16(be(2) as u16),
+                UIntType::U32 => UIntValue::U32(be(4) as u32),
+                UIntType::U64 => UIntValue::U64(be(8) as u64),
+                UIntType::U128 => UIntValue::U128(be(16)),
+                UIntType::U256 => UIntValue::U256(simfony::num::U256::from_byte_array(b)),
+            })
+        };
+        let bit = |b: &mut [u8; 32], i: u32| b[31 - (i / 8) as usize] |= 1 << (i % 8);
+        let vals = vec![
+            mk(&|b| bit(b, k)),
+            mk(&|b| {
+                for i in 0..k {
+                    bit(b, i)
+                }
+            }),
+            mk(&|b| {
+                bit(b, k);
+                bit(b, 0)
+            }),
+            mk(&|b| {
+                for i in 0..w {
+                    if i != k {
+                        bit(b, i)
+                    }
+                }
+            }),
+        ];
+        let opt = ResolvedType::option(ty.clone());
+        let tup = ResolvedType::tuple([ty.clone()]);
+        let arr = ResolvedType::array(ty.clone(), 2);
+        for v in vals {
+            stats.values += 4;
+            roundtrip(&ty, &v)?;
+            roundtrip(&opt, &Value::some(v.clone()))?;
+            roundtrip(&tup, &Value::tuple([v.clone()]))?;
+            roundtrip(&arr, &Value::array([v.clone(), v.clone()], ty.clone()))?;
         }
         return Ok(());
     }
